@@ -362,6 +362,11 @@ class Engine:
             # elements of reference lists in the initial heap are pre-existing objects
             if self.init_elemI is not None:
                 self.instantiate_elem_axioms(e)
+            if self.quant_depth == 0 and not z3.is_int_value(e):
+                # heap well-formedness, as for attribute loads: an element of a list is None or an object that has
+                # already been allocated (stated for in-range positions only)
+                self.heap_fact(z3.Implies(z3.And(zi >= 0, zi < self.vec_len(state, ref)),
+                                          z3.And(e >= 0, e < state.abase + state.nalloc)))
             return self.wrap(self.norm(e), et)
         return self.norm(e)
 
